@@ -945,13 +945,13 @@ func (o *Object) MarshalJSON() ([]byte, error) {
 	ctx := _builtinJSON_stringifyContext{
 		r: o.runtime,
 	}
-	ex := o.runtime.vm.try(func() {
+	err := o.runtime.try(func() {
 		if !ctx.do(o) {
 			ctx.buf.WriteString("null")
 		}
 	})
-	if ex != nil {
-		return nil, ex
+	if err != nil {
+		return nil, err
 	}
 	return ctx.buf.Bytes(), nil
 }
